@@ -44,6 +44,10 @@ func TextConsumer() Consumer {
 			return nil
 		}
 
+		if v := reflect.ValueOf(data); v.Kind() == reflect.Ptr && v.IsNil() {
+			return fmt.Errorf("nil destination (%T) for TextConsumer", data)
+		}
+
 		if tu, ok := data.(encoding.TextUnmarshaler); ok {
 			err := tu.UnmarshalText(b)
 			if err != nil {
@@ -76,6 +80,9 @@ func TextProducer() Producer {
 
 		if data == nil {
 			return errors.New("no data given to produce text from")
+		}
+		if v := reflect.ValueOf(data); v.Kind() == reflect.Ptr && v.IsNil() {
+			return fmt.Errorf("nil data (%T) given to produce text from", data)
 		}
 
 		if tm, ok := data.(encoding.TextMarshaler); ok {
